@@ -14,6 +14,12 @@
 //	         reverse for :reverse/:desc/:asc.
 //	cli      rare histo / rare table --snapshot --sort ... on files whose lines
 //	         are permuted and spread over several files.
+//	resort   (resort_test.go) one aggregator asked for several sort names in a
+//	         row, also between samples: each answer is the order of that name
+//	         alone on the current data.
+//	reduce, reduce-cli
+//	         (reduce_test.go) reduce --sort <expr> [--sort-reverse] with sort
+//	         values that tie, in-process and through the binary.
 package c13
 
 import (
